@@ -66,7 +66,7 @@ func genLen(r *harn.Rng, profile int) int {
 	case 0:
 		return r.Range(0, 100)
 	case 1:
-		return r.Pick(0, 1, 2, 3, 4, 5, 100, 500, 1000, 1021, 1022, 1023, 1024, 1500)
+		return r.Pick(0, 1, 2, 3, 4, 5, 100, 500, 1000, 1021, 1022, 1023, 1024, 1500, 2045, 2046, 2047, 4094, 8190)
 	case 2: // around ring sizes (minus header), to split header and payload at every offset
 		s := rings[r.Intn(8)]
 		return clampLen(s/r.Pick(1, 1, 2, 3, 4) - 2 + r.Range(-4, 4))
@@ -98,7 +98,7 @@ func gen(r *harn.Rng, tier string) interface{} {
 		for i := 0; i < nw; i++ {
 			c := client{Role: "writer"}
 			for j, n := 0, r.Range(1, 4); j < n && budget > 0; j++ {
-				c.Ops = append(c.Ops, op{Kind: "w", N: r.Pick(4, 5, 8, 100, 1000, 2040, 2043, 2044, 2045, 2046, 4090, 65535)})
+				c.Ops = append(c.Ops, op{Kind: "w", N: r.Pick(4, 5, 8, 100, 1000, 2040, 2043, 2044, 2045, 2046, 2047, 4090, 4094, 65535)})
 				budget--
 			}
 			sc.Clients = append(sc.Clients, c)
